@@ -27,9 +27,9 @@ const dir = "d1"
 
 // thread programs
 type Prog struct {
-	K    string `json:"k"` // create open delete link ac list appendpre readpre
-	N    string `json:"n"`
-	M    string `json:"m"`
+	K string `json:"k"` // create open delete link ac list appendpre readpre
+	N string `json:"n"`
+	M string `json:"m"`
 }
 
 func (p Prog) String() string {
@@ -429,7 +429,8 @@ func interesting(ths []Prog) bool {
 	// at least one mutating program
 	for _, p := range ths {
 		switch p.K {
-		case "create", "delete", "link", "ac", "appendpre":
+		case "create", "delete", "link", "ac", "appendpre", "open":
+			// open allocates a descriptor: it mutates the descriptor table
 			return true
 		}
 	}
